@@ -63,6 +63,17 @@ Section Sound.
     - apply Nat.eqb_eq in H. subst. reflexivity.
   Qed.
 
+  Lemma outcomes_eqb_sound_ok : forall ex,
+    Forall (fun b : outcome C => match b with Ok _ | Err _ => True | _ => False end) ex ->
+    forall obs, length obs = length ex ->
+    forallb (fun p => outcome_eqb ceqb (fst p) (snd p)) (combine obs ex) = true -> obs = ex.
+  Proof.
+    induction ex as [|b ex IH]; intros F [|a obs] Hl H; cbn in *; try discriminate; [reflexivity|].
+    apply andb_true_iff in H. destruct H as [Ha Hr]. inversion F; subst.
+    pose proof (outcome_eqb_sound a b Ha) as S.
+    f_equal; [destruct b; try contradiction; exact S|apply IH; [assumption|lia|exact Hr]].
+  Qed.
+
   (* C14: what the checker accepts is exactly the expected records, in order, then End *)
   Theorem check_c14_sound_lemma : forall expected obs,
     check_c14 ceqb expected obs = true ->
@@ -70,17 +81,7 @@ Section Sound.
   Proof.
     intros expected obs H. unfold check_c14, outcomes_eqb in H.
     apply andb_true_iff in H. destruct H as [H1 H2]. apply Nat.eqb_eq in H1.
-    revert obs H1 H2.
-    generalize (map (fun r : record C => @Ok (option (record C)) (Some r)) expected ++ [Ok None]) as ex.
-    intros ex Hex. revert Hex.
-    assert (forall ex, Forall (fun b : outcome C => match b with Ok _ | Err _ => True | _ => False end) ex ->
-            forall obs, length obs = length ex ->
-            forallb (fun p => outcome_eqb ceqb (fst p) (snd p)) (combine obs ex) = true -> obs = ex) as G.
-    { induction ex0 as [|b ex0 IH]; intros F [|a obs] Hl H; cbn in *; try discriminate; [reflexivity|].
-      apply andb_true_iff in H. destruct H as [Ha Hr]. inversion F; subst.
-      pose proof (outcome_eqb_sound a b Ha) as S.
-      f_equal; [destruct b; try contradiction; exact S|apply IH; [assumption|lia|exact Hr]]. }
-    intros. subst ex. apply G; try assumption.
+    apply outcomes_eqb_sound_ok; try assumption.
     apply Forall_app. split; [apply Forall_forall; intros x Hx; apply in_map_iff in Hx;
       destruct Hx as [r [<- _]]; exact I|constructor; [exact I|constructor]].
   Qed.
